@@ -68,3 +68,22 @@ Example C02_example :
     Some (MkO 18446744073709551615 18446744073709551614 9007199254740993 18446744073709551615 18446744073709551615, false) /\
   load_one (Cfg false true None []) false fempty (assoc [(4, 17)]) (assoc [(4, 99)]) 4 = Some (MkO 99 17 17 17 18446744073709551615, true).
 Proof. vm_compute. split; reflexivity. Qed.
+
+(* read-only mode over a whole history of one wrapper object (saves reaching the wrapped backend directly in between,
+   saves attempted through the wrapper, loads with changing vBucket sets): the backend and every load are what they would
+   be without the attempted saves, and each load returns what the backend holds at that moment for the vBuckets asked
+   for then -- not what an earlier load returned *)
+Theorem C02_readonly_history : forall l f,
+  ro_run f l = ro_run f (List.filter (fun s => negb (through_wrapper s)) l).
+Proof. exact ro_run_ignores_wrapper_saves. Qed.
+Print Assumptions C02_readonly_history.
+
+Theorem C02_readonly_load_is_current : forall l1 vbs l2 f,
+  nth_error (snd (ro_run f (l1 ++ RoLoad vbs :: l2))) (length (snd (ro_run f l1))) = Some (file_load (fst (ro_run f l1)) vbs).
+Proof. exact ro_run_load_current. Qed.
+Print Assumptions C02_readonly_load_is_current.
+
+Example C02_readonly_history_example :
+  snd (ro_run None [RoLoad [0; 1]; RoSave [(0, MkD 1 2 2 2)] [0]; RoLoad [2]; RoBackendSave [(2, MkD 7 5 5 5)] [2]; RoLoad [2]; RoBackendClear; RoLoad [3]]) =
+  [([(0, empty_doc); (1, empty_doc)], false); ([(2, empty_doc)], false); ([(2, MkD 7 5 5 5)], true); ([(3, empty_doc)], false)].
+Proof. vm_compute. reflexivity. Qed.
